@@ -29,14 +29,17 @@ def edge_label(attrs):
     return json.dumps(attrs, sort_keys=True, default=str)
 
 
-def project_graph(graph, key_resid=False):
+def project_graph(graph, key_resid=False, base=0):
     """networkx graph / MetaMolecule -> abstract residue graph.  key_resid: the graph has no resid yet (gen_seq builds
-    graphs keyed 0..n-1 which the reader numbers key + 1)."""
+    graphs keyed 0..n-1 which the reader numbers key + 1).  base: residue ids are taken relative to base (C19 inputs whose
+    numbering starts at first = base + 1).  Node keys never enter the projection."""
     nodes = list(graph.nodes)
     if key_resid:
         rid = {k: (k + 1 if isinstance(k, int) else None) for k in nodes}
     else:
         rid = {k: graph.nodes[k].get("resid") for k in nodes}
+        if base:
+            rid = {k: (v - base if isinstance(v, int) and not isinstance(v, bool) else v) for k, v in rid.items()}
     ids = [rid[k] for k in nodes]
     n = len(nodes)
     numok = all(isinstance(i, int) and not isinstance(i, bool) for i in ids) and sorted(ids) == list(range(1, n + 1))
@@ -393,14 +396,55 @@ def complete(graph):
     return "ok", mm
 
 
-def run_dsdna(inp):
-    """-> {"rej": bool, "g": completed graph, "back": second strand of (second strand completed again)}"""
+def plain_keys(inp):
+    """node keys 0..n-1 and residue ids from 1: what the .ig / .fasta / -seq routes produce"""
+    keys = list(_seq(inp.get("keys", []))) or list(range(len(inp["names"])))
+    return keys == list(range(len(inp["names"]))) and inp.get("first", 1) == 1
+
+
+def render_strand_json(inp, wd, stem):
+    """a dsdna input as the .json sequence file that produces it: node ids = keys (1-based, with gaps, shuffled against the
+    residue ids ...), explicit residue ids first, first+1, ..."""
+    names, keys, first = list(inp["names"]), list(inp["keys"]), inp["first"]
+    n = len(names)
+    nodes = [{"id": keys[r], "resname": names[r], "resid": first + r} for r in range(n)]
+    edges = []
+    for r in range(n - 1):
+        e = {"source": keys[r], "target": keys[r + 1]}
+        if inp["tag"] == r + 1:
+            e["linktype"] = "x"
+        edges.append(e)
+    if inp["circ"]:
+        edges.append({"source": keys[n - 1], "target": keys[0], "linktype": "circle"})
+    p = Path(wd) / ("%s.json" % stem)
+    p.write_text(json.dumps({"directed": False, "multigraph": False, "graph": {}, "nodes": nodes, "edges": edges}))
+    return p
+
+
+def run_dsdna(inp, wd=None, stem="s"):
+    """-> {"rej", "g": molecule after the completion, "g2": after completing the added strand once more IN PLACE on the same
+    object (inp.rounds = 2), "back": second strand of (a fresh copy of the added strand completed again)}.
+    Strands with other node keys / first residue id than 0..n-1 / 1 are read from a rendered .json file."""
+    from polyply.src.meta_molecule import MetaMolecule
+    from polyply.src.gen_dna import complement_dsDNA
+    base = inp.get("first", 1) - 1
     try:
-        st, mm = complete(strand_graph(inp))
-        if st == "rej":
-            return {"rej": True, "why": mm}
-        out = {"rej": False, "g": project_graph(mm)}
+        if plain_keys(inp):
+            mm = MetaMolecule(strand_graph(inp), mol_name="test")
+        else:
+            mm = MetaMolecule.from_sequence_file(None, render_strand_json(inp, wd, stem), "test")
+        try:
+            complement_dsDNA(mm)
+        except (IOError, KeyError) as exc:      # the two ways the code refuses an unknown residue name
+            return {"rej": True, "why": "%s: %s" % (type(exc).__name__, str(exc)[:120])}
+        out = {"rej": False, "g": project_graph(mm, base=base)}
         sec = second_strand(mm)
+        if inp.get("rounds", 1) == 2:
+            try:
+                complement_dsDNA(mm)
+                out["g2"] = project_graph(mm, base=base)
+            except Exception as exc:
+                out["g2"] = _exc(exc)
         if sec is None or len(sec) != len(inp["names"]):
             out["back"] = {"exc": "no second strand of %d residues" % len(inp["names"])}
             return out
@@ -412,7 +456,7 @@ def run_dsdna(inp):
         out["back"] = project_graph(sec2) if sec2 is not None else {"exc": "odd number of residues"}
         return out
     except Exception as exc:
-        return {"rej": False, "g": _exc(exc), "back": _exc(exc)}
+        return {"rej": False, "g": _exc(exc), "back": _exc(exc), "g2": _exc(exc)}
 
 
 def dna_letters(inp):
@@ -445,7 +489,7 @@ def universe_ff(path):
     return sorted(names)
 
 
-def run_gen_params(wd, stem, ff, seq=None, seq_file=None, dsdna=False):
+def run_gen_params(wd, stem, ff, seq=None, seq_file=None, dsdna=False, base=0):
     """real gen_params; returns {"g": graph handed to MapToMolecule, "itp": [(resid, resname) per atom]} or {"exc"}"""
     gi = importlib.import_module("polyply.src.gen_itp")
     captured = {}
@@ -453,7 +497,7 @@ def run_gen_params(wd, stem, ff, seq=None, seq_file=None, dsdna=False):
 
     class Capture(orig):
         def run_molecule(self, meta_molecule):
-            captured["g"] = project_graph(meta_molecule)
+            captured["g"] = project_graph(meta_molecule, base=base)
             return super().run_molecule(meta_molecule)
     out = Path(wd) / ("%s.itp" % stem)
     if out.exists():
